@@ -398,10 +398,11 @@ def judge_c04(out, h, sec, A, table):
             evs = ref.events_by_security(h["rows"])[sec]
             dates = {str(e.td) for e in evs[idx:]}
             if not any(d in A.tool_error for d in dates):
-                if rounding_margin(A.tool_error):
+                dust = lookahead_dust(h, sec, A.tool_error)
+                if rounding_margin(A.tool_error) or dust:
                     # the tool stopped at an earlier, valid transaction because of a rounded share count
                     out["findings"].append({"prop": "C04", "sec": sec, "what": "valid history rejected",
-                                            "detail": {"msg": A.tool_error, "rounding_margin": True,
+                                            "detail": {"msg": A.tool_error, "rounding_margin": rounding_margin(A.tool_error), "lookahead_dust": dust,
                                                        "note": "rejected before the genuinely offending transaction of %s" % ev.td}})
                 else:
                     out["findings"].append({"prop": "C04", "sec": sec, "what": "rejection message does not identify the transaction",
@@ -438,8 +439,8 @@ def judge_c04(out, h, sec, A, table):
 def lookahead_dust(h, sec, msg):
     """Input-side description of a known rounding residue: the tool says a share count 'went below zero in 30-day
     period after sale (on D)', while in exact arithmetic the sale traded on D leaves its affiliate (or all
-    affiliates together) with exactly zero shares, and a split whose factor does not terminate in decimal settles
-    in the 45 days before it (so the look-ahead re-expresses those quantities with a rounded division)."""
+    affiliates together) with exactly zero shares, and an earlier split of the security has a factor that does not
+    terminate in decimal (so the tool's balance, or the look-ahead's re-expressed quantities, carry a rounded division)."""
     m = re.search(r"went below zero in 30-day period after sale \(on (\d{4}-\d{2}-\d{2})\)", msg or "")
     if not m:
         return False
@@ -455,7 +456,7 @@ def lookahead_dust(h, sec, msg):
             if not zero:
                 continue
             for x in evs[:i]:
-                if x.action == "Split" and 0 <= (e.sd - x.sd).days <= 45:
+                if x.action == "Split":
                     for q in (x.factor, 1 / x.factor):
                         if any(pf not in (2, 5) for pf in ref.prime_factors_small(q.denominator)):
                             return True
